@@ -61,6 +61,10 @@ func runChildJSON(ctxTimeout time.Duration, unpriv bool, env []string, sub strin
 				}
 			}
 		}
+		if rv, ok := strings.CutPrefix(e, "VERIF_SECCOMP_RETVAL="); ok && rv != "" {
+			// every seccomp(2) call is answered by a tracer with a positive result and never reaches the kernel
+			cmd = exec.CommandContext(cctx, "strace", "-f", "-o", "/dev/null", "-e", "trace=seccomp", "-e", "signal=none", "-e", "inject=seccomp:retval="+rv, self, "child", sub)
+		}
 		if e == "VERIF_PRCTL_DELAY=1" {
 			// schedule point at prctl(2): a tracer holds the calling thread in the kernel for 60 ms after every prctl
 			cmd = exec.CommandContext(cctx, "strace", "-f", "-o", "/dev/null", "-e", "trace=prctl", "-e", "signal=none", "-e", "inject=prctl:delay_exit=60000", self, "child", sub)
@@ -184,6 +188,13 @@ func checkC10(tier, replay string) int {
 						// parentheses in it - nothing about the load may depend on what the process is called
 						scripts = append(scripts, tsyncScript{Phases: v, Flags: fl, LoaderMain: lm, NNP: true, ExeName: "a b) R 9 (9 0"})
 					}
+					if len(v) <= 2 && fl&1 != 0 && straceWorks() {
+						// the kernel's way of refusing a thread-sync load - a positive result naming the thread - produced by a tracer,
+						// with the id of a thread that does not (or no longer) exist: nothing is installed, nil would be wrong
+						for _, rv := range []uint32{1, 4000001} {
+							scripts = append(scripts, tsyncScript{Phases: v, Flags: fl, LoaderMain: lm, NNP: true, TracerRetval: rv})
+						}
+					}
 					if len(v) <= 2 && fl&1 != 0 {
 						// a thread with a private filter: the kernel refuses thread-sync; nil is only acceptable if everyone is covered
 						scripts = append(scripts, tsyncScript{Phases: v, Flags: fl, LoaderMain: lm, NNP: true, Divergent: true})
@@ -227,6 +238,9 @@ func checkC10(tier, replay string) int {
 		if sc.ExeName != "" {
 			env = append(env, "VERIF_EXENAME="+sc.ExeName)
 		}
+		if sc.TracerRetval != 0 {
+			env = append(env, fmt.Sprintf("VERIF_SECCOMP_RETVAL=%d", sc.TracerRetval))
+		}
 		limit := 40 * time.Second
 		if len(sc.Phases) > 8 {
 			limit = 150 * time.Second
@@ -244,7 +258,7 @@ func checkC10(tier, replay string) int {
 			ctx.Violation("C10:load-panicked:"+key, "LoadFilter panicked: "+*rep.Err, sc)
 			return
 		}
-		if rep.Err != nil && (sc.Divergent || sc.OuterENOSYS || (sc.Unpriv && !sc.NNP) || sc.Flags&sc.OuterEINVAL != 0 || sc.BigPolicy) {
+		if rep.Err != nil && (sc.Divergent || sc.OuterENOSYS || (sc.Unpriv && !sc.NNP) || sc.Flags&sc.OuterEINVAL != 0 || sc.BigPolicy || sc.TracerRetval != 0) {
 			atomic.AddInt64(&refused, 1)
 			return // refusal reported as an error: nothing to check
 		}
@@ -341,7 +355,7 @@ func checkC10(tier, replay string) int {
 	ctx.Cov["short_lived_threads_spawned_while_loading"] = spawnedDuring
 	ctx.Cov["single_bit_flag_words_checked"] = bits
 	ctx.Cov["thread_sync_refusals_reported_as_error"] = refused
-	ctx.Cov["rule"] = "states = (vector of user-visible phases of N other OS threads at the moment of the load: spinning, in nanosleep, blocked in read, blocked in futex, spawning short-lived threads) x flags {0,tsync,log,tsync|log} x loader on main / non-main thread; every vector for N<=2 (quick) / N<=3 (thorough) and homogeneous + mixed vectors for N=8 (and 64 thorough); plus histories and environments for the small vectors (a preloaded filter, an earlier thread-sync load of another policy, a divergent thread, an outer filter answering ENOSYS to seccomp(2), an outer filter answering EPERM to every auxiliary seccomp(2) operation (support probes) but not to loads, an outer filter answering EINVAL to loads whose flag word has the thread-sync / the log bit (a kernel that does not know the bit), a deny-list policy of 41 groups that compiles to more than 4096 instructions (refusal expected), a policy with LOG actions, the process running as uid 65534 with and without no_new_privs (without, a refusal is expected and nil is only acceptable with every thread covered), the whole process under the UNAME26 personality so that uname(2) reports release 2.6.x); each is run once on the real kernel through the real LoadFilter; after an atomic 'load returned' flag every thread (including three born afterwards) probes getppid and reads its own /proc status, and /proc/self/task is scanned; plus all 32 single-bit flag words observed at the syscall seam and, for the defined bits, in strace's decoding of seccomp(2)"
+	ctx.Cov["rule"] = "states = (vector of user-visible phases of N other OS threads at the moment of the load: spinning, in nanosleep, blocked in read, blocked in futex, spawning short-lived threads) x flags {0,tsync,log,tsync|log} x loader on main / non-main thread; every vector for N<=2 (quick) / N<=3 (thorough) and homogeneous + mixed vectors for N=8 (and 64 thorough); plus histories and environments for the small vectors (a preloaded filter, an earlier thread-sync load of another policy, a divergent thread, an outer filter answering ENOSYS to seccomp(2), an outer filter answering EPERM to every auxiliary seccomp(2) operation (support probes) but not to loads, an outer filter answering EINVAL to loads whose flag word has the thread-sync / the log bit (a kernel that does not know the bit), the whole child under a tracer that answers seccomp(2) with a positive result naming a thread that does not exist (the kernel's form of a refused thread-sync; nothing is installed), a deny-list policy of 41 groups that compiles to more than 4096 instructions (refusal expected), a policy with LOG actions, the process running as uid 65534 with and without no_new_privs (without, a refusal is expected and nil is only acceptable with every thread covered), the whole process under the UNAME26 personality so that uname(2) reports release 2.6.x); each is run once on the real kernel through the real LoadFilter; after an atomic 'load returned' flag every thread (including three born afterwards) probes getppid and reads its own /proc status, and /proc/self/task is scanned; plus all 32 single-bit flag words observed at the syscall seam and, for the defined bits, in strace's decoding of seccomp(2)"
 	ctx.Assumptions = []string{"the interleaving of seccomp(2) with other threads inside the kernel cannot be scheduled from user space; one run per phase vector", "phase of blocked threads is confirmed through /proc/<tid>/syscall immediately before the load is released"}
 	if replay != "" {
 		return finishReplay(ctx)
